@@ -304,6 +304,11 @@ def u_ctl():
     add("ctl-multi", ["a: %s" % Q2, "b: %s" % Q2], Q2, ["t = 0", "u = a", "v = b", "t = u", "u = v", "v = a + 1", "return t + u + v"])
     add("ctl-multi", ["a: bool", "b: bool", "c: bool"], "bool", ["t = a", "u = t", "t = b", "v = u", "u = c", "return (v and not t) or (u ^ v)"])
     add("ctl-multi", ["a: bool", "b: bool"], "Tuple[bool, bool]", ["t = a", "u = b", "w = t", "t = u", "u = w", "w = t and u", "return (w ^ t, u)"])
+    # ... with computed (not merely copied) values in the registers
+    add("ctl-multi", ["a: bool", "b: bool", "c: bool"], "bool", ["u = a and b", "v = b or c", "for i in range(2):", "    t = u", "    u = v", "    v = t ^ (a and c)", "return (t and u) ^ v"])
+    add("ctl-multi", ["a: bool", "b: bool", "c: bool"], "bool", ["u = a and b", "v = b or c", "t = u", "u = v", "v = a ^ c", "return t ^ (u and v)"])
+    add("ctl-multi", ["a: %s" % Q2, "b: %s" % Q2], Q2, ["u = a + 1", "v = a ^ b", "t = u", "u = v", "v = b + 1", "return (t + u) ^ v"])
+    add("ctl-multi", ["a: bool", "b: bool", "c: bool"], "Tuple[bool, bool]", ["u = a or c", "v = not (a and b)", "t = u", "u = v", "w = t", "t = u", "v = w and c", "return (t ^ v, w or u)"])
     # unpacking into targets that include the unpacked tuple itself
     add("ctl-multi", ["t: Tuple[Tuple[bool, bool], bool]"], "bool", ["t, u = t", "return t[0] and u"])
     add("ctl-multi", ["t: Tuple[bool, Tuple[bool, bool]]"], "bool", ["u, t = t", "return (t[0] ^ u) and t[1]"])
